@@ -676,8 +676,17 @@ macro_rules! impl_graph_traits {
                 &mut self,
                 n: <$graph_type<N, E, Ix> as GraphBase>::NodeId,
             ) -> Option<N> {
+                // A node that is not in the graph has no position to give up.
+                self.graph.node_weight(n)?;
+                let last = NodeIndex::new(self.graph.node_bound() - 1);
                 self.order_map.remove_node(n, &self.graph);
-                self.graph.remove_node(n)
+                let weight = self.graph.remove_node(n);
+                // `Graph::remove_node` moves the last node into the vacated
+                // index: its position moves with it.
+                if n != last && self.graph.node_weight(n).is_some() {
+                    self.order_map.rename_node(last, n, &self.graph);
+                }
+                weight
             }
         }
 
